@@ -135,10 +135,12 @@ pub struct MCommon {
     pub name: MIdent,
     /// prelude order: if true, attributes are written before the doc comment lines
     pub attrs_first: bool,
+    /// the attributes are written between the first and the second line of the doc comment (needs >= 2 doc lines)
+    pub interleaved: bool,
 }
 impl MCommon {
     pub fn new(name: &str) -> Self {
-        MCommon { doc: MDoc::default(), attrs: vec![], name: MIdent::new(name), attrs_first: false }
+        MCommon { doc: MDoc::default(), attrs: vec![], name: MIdent::new(name), attrs_first: false, interleaved: false }
     }
     pub fn doc(mut self, lines: &[&str]) -> Self {
         self.doc.lines = lines.iter().map(|s| s.to_string()).collect();
